@@ -443,6 +443,27 @@ def rule_hz(ctx, mod, ci):
     ctx.check(not bad, R, "hz.roundtrip", th.where(), "from_hertz(to_hertz(n)) for n in 0..127",
               "%d of %d (pitch, note) pairs break 'A-4 at the standard pitch, doubling per octave, reads back the same note "
               "(also detuned by +-40 cents)': %s" % (len(bad), checked, bad[:3]))
+    # one run, several standard pitches, several notes of equal pitch: every answer follows its own arguments only
+    def history(it):
+        out = []
+        for name, octave, pitch in (("A", 4, None), ("A", 4, 415), ("A", 5, 432), ("A", 4, None), ("A", 5, 415), ("Bbb", 4, 466), ("G##", 4, 440), ("A", 3, 415), ("A", 4, 415)):
+            n = note_obj(ci, name=name, octave=octave)
+            out.append(it.call_function(th, [n] + ([pitch] if pitch is not None else []), {}))
+        back = []
+        for hz, pitch in ((440.0, 440), (415.0, 415), (440.0, 415), (415.0, 440)):
+            dst = note_obj(ci)
+            it.call_function(fh, [dst, hz, pitch], {})
+            back.append(nd.pitch_number(dst.attrs.get("name"), dst.attrs.get("octave")))
+        return out, back
+    try:
+        ps = explore(lambda ch: Interp(ctx.repo, ch), history)
+    except CannotDecide as e:
+        raise AnalysisError("to_hertz / from_hertz in sequence: %s" % e)
+    want = [440.0, 415.0, 864.0, 440.0, 830.0, 466.0, 440.0, 207.5, 415.0]
+    ok = len(ps) == 1 and ps[0].kind == "return" and all(isinstance(x, float) and abs(x / w - 1) < 1e-12 for x, w in zip(ps[0].value[0], want)) \
+        and ps[0].value[1] == [57, 57, 58, 56]
+    ctx.check(ok, R, "hz.history", th.where(), "to_hertz under standard pitches default, 415, 432, default, 415, 466, 440, 415, 415 in one run; from_hertz under 440 / 415",
+              "gives %s, expected %s and the notes 57, 57, 58, 56: an answer depends on an earlier request" % ([(p.kind, short(repr(p.value), 200)) for p in ps], want))
     d1 = ctx.repo.try_const(mod, th.defaults.get("standard_pitch"))
     d2 = ctx.repo.try_const(mod, fh.defaults.get("standard_pitch"))
     ctx.check(d1 == 440, R, "hz.default.to", th.where(), "to_hertz default pitch", "default standard pitch is %r" % (d1,))
